@@ -9,6 +9,8 @@ import shutil
 import subprocess
 import sys
 import time
+
+sys.setrecursionlimit(20000)   # CBMC prints deeply nested let / ite chains for multi-step harnesses
 from fractions import Fraction
 
 from . import engine
@@ -104,6 +106,10 @@ def decide(h, meta, cfg):
              queries=0, solver_s=0.0, symex_s=0.0, vacuity=None, replays=[], modes_tried=[])
     try:
         _decide(h, meta, cfg, r)
+    except RecursionError:
+        # a verification condition nested deeper than the interpreter's recursion limit: no verdict
+        r['verdict'] = 'undecided'
+        r['detail'] = 'verification condition too deeply nested for the interpreter (recursion limit)'
     except Exception as e:  # machinery failure
         import traceback
         r['verdict'] = 'error'
